@@ -149,6 +149,10 @@ class World:
             "s2": mk_snaps(fr2, np.diag(L2), TYPES2, lo=LO2, steps=STEPS),
             "so2": mk_snaps([np.column_stack((np.cos(x), np.sin(x))) for x in ang], np.eye(2), TYPES2, steps=STEPS),
         }
+        # unwrapped (xu-type) coordinates in the centred box: particle i sits n_i whole box vectors away from its wrapped image (a routine
+        # that folds its working copy must not fold the caller's array; the centred box is where the freud path aliases the positions)
+        shifts = np.array([[(0, 2, -3, 1, 0, -1, 4, 0, -2)[(i + 2 * f + 3 * k) % 9] for k in range(3)] for f in range(3) for i in range(N3)]).reshape(3, N3, 3)
+        self.snaps["s3u"] = mk_snaps([np.array(x) + shifts[f] * L3 for f, x in enumerate(fr3)], np.diag(L3), TYPES3, lo=-L3 / 2, steps=STEPS)
         # the hand-unrolled unary .. quinary (and > 5 species) bodies of gr / sq each write their own output file
         for K in KSPECIES:
             self.snaps[f"s3k{K}"] = mk_snaps([np.array(x).copy() for x in fr3], np.diag(L3), [1 + (i % K) for i in range(N3)],
@@ -1392,6 +1396,40 @@ def _(W):
     r3 = W.dyn.sq4(t=0.4, qrange=2.5, condition=W.args["sel_FN_float"])
     r4 = W.dyn.sq4(t=0.2, qrange=3.5)
     return [r1, r2, r3, r4], []
+
+
+@event("unwrapped.voro")
+def _(W):
+    from PyMatterSim.neighbors.freud_neighbors import VolumeMatrix, cal_neighbors, convert_configuration
+
+    ret = cal_neighbors(W.snaps["s3u"], "o_v3u")
+    b3, p3 = convert_configuration(W.snaps["s3u"])
+    vm = VolumeMatrix(W.snaps["s3u"], ndim=3, nconfig=2, deltar=0.01, transform_matrix=False)
+    return [ret, fbytes("o_v3u.neighbor.dat", "o_v3u.facearea.dat", "o_v3u.overall.dat"), p3, vm], []
+
+
+@event("unwrapped.static")
+def _(W):
+    from PyMatterSim.neighbors.calculate_neighbors import Nnearests, cutoffneighbors
+    from PyMatterSim.static.gr import gr
+    from PyMatterSim.static.sq import sq
+
+    r1 = gr(W.snaps["s3u"], ppp=W.args["ppp3"], rdelta=0.25).getresults()
+    r2 = sq(W.snaps["s3u"], qvector=W.args["qvec3"]).getresults()
+    Nnearests(W.snaps["s3u"], N=3, ppp=W.args["ppp3"], fnfile="o_nnu.dat")
+    cutoffneighbors(W.snaps["s3u"], r_cut=3.2, ppp=W.args["ppp3"], fnfile="o_ncu.dat")
+    return [r1, r2, fbytes("o_nnu.dat", "o_ncu.dat")], []
+
+
+@event("unwrapped.dyn")
+def _(W):
+    from PyMatterSim.dynamic.dynamics import Dynamics, LogDynamics
+
+    d = Dynamics(xu_snapshots=W.snaps["s3u"], x_snapshots=W.snaps["s3"], dt=DT, ppp=W.args["ppp3"], diameters={1: 1.0, 2: 1.2}, a=0.3,
+                 neighborfile="in_nl3.dat", max_neighbors=8)
+    r1 = d.relaxation(qconst=2 * np.pi)
+    g = LogDynamics(xu_snapshots=W.snaps["s3u"], dt=DT, diameters={1: 1.0, 2: 1.2}, a=0.3)
+    return [r1, g.relaxation()], []
 
 
 @event("volmat.alt")
